@@ -47,7 +47,8 @@ def make_records(segs, walks, rnd, blank_names=False):
             nm = f"{pre}{wi}{uni}_{ps}_{pe}"
             if wi % 6 == 5:      # several alignments of ONE read (same name, other intervals / walks): names do not identify records
                 nm = "multi_read"
-            lines.append(f"{nm}\t{L + 2}\t1\t{L + 1}\t+\t{path}\t{plen}\t{ps}\t{pe}\t{a}\t{L}\t{(ps * 7 + pe) % 61}\ttp:A:P\tcg:Z:{cg}\tNM:i:3{tail}")
+            cgf = f"\tcg:Z:{cg}" if (wi + ps) % 4 else ""      # the CIGAR is optional: a quarter of the records have none
+            lines.append(f"{nm}\t{L + 2}\t1\t{L + 1}\t+\t{path}\t{plen}\t{ps}\t{pe}\t{a}\t{L}\t{(ps * 7 + pe) % 61}\ttp:A:P{cgf}\tNM:i:3{tail}")
     rnd.shuffle(lines)
     # several alignments of ONE read on ONE walk stand on consecutive lines (split alignments are reported together)
     multi = [l for l in lines if l.startswith("multi_read\t")]
@@ -143,7 +144,7 @@ def run_session(job):
         if ulines and zlib.crc32(("long" + sid).encode()) % 5 == 0 and rep == 1:
             # one record longer than 64 KiB (a noisy long read with a huge CIGAR-like field): lines have no maximal length
             f0 = ulines[0].split("\t")
-            ulines.append("\t".join(["long" + f0[0]] + f0[1:] + ["zz:Z:" + "p" * 70000, "zy:i:7"]))
+            ulines.insert(1, "\t".join(["long" + f0[0]] + f0[1:] + ["zz:Z:" + "p" * 70000, "zy:i:7"]))      # (second line: the records behind it start beyond 64 KiB)
         ext = zname("", sid) if bgzf else ""
         U = os.path.join(d, "u.gaf" + ext)
         if zlib.crc32(("lnk" + sid).encode()) % 4 == 2:
